@@ -35,6 +35,9 @@ ASSUMPTIONS = [
     'must refuse that request with a non-zero encapsulation status, and every later routed request (new session) must be '
     'answered by the reply to itself (service code, context, and B\'s values); if the reply arrived in time after all the case '
     'is judged as an ordinary exchange',
+    'client-issue clause: connector.issue() over a capturing connector: every operation is reported with the index of the request '
+    'frame that carries it (documented: "instrumented with a sender_context based on the provided index, indicating the actual '
+    'EtherNet/IP CIP request it is part of") and that frame carries index_to_sender_context(index)',
     'client-context clause: the library\'s own client writes 1..8 reads with explicit sender contexts (0..8 bytes, NUL bytes '
     'in any position) before reading any reply; collect() must report every reply, in order, under its request\'s context '
     'with only the documented right-hand NUL padding removed',
@@ -522,6 +525,54 @@ def pred_client(case, stats):
                    expected={'contexts': [w[0].hex() for w in want], 'status': 0})
 
 
+# -- clause: client-issue -- connector.issue() numbers its requests: every operation is reported with the index of the request frame
+#    that carries it, and that frame carries the sender context derived from the same index
+
+
+def pred_client_issue(case, stats):
+    from . import c15
+    cap = c15.capture_connector()
+    del cap.frames[:]
+    cops = []
+    for k, (elem, write) in enumerate(case['ops']):
+        d = {'path': [{'symbolic': 'I16'}, {'element': elem}], 'elements': 1}
+        d.update(dict(method='write', data=[k], tag_type=rc.tcode('INT')) if write else dict(method='read'))
+        cops.append(d)
+    issued = list(cap.issue(cops, index=case['index0'], multiple=case['multiple']))
+    stats.case(case, nontrivial=bool(case['multiple']) and len(cap.frames) >= 2, classes=['issue:multiple:%d' % case['multiple'], 'issue:frames:%d' % min(len(cap.frames), 4)])
+    if len(issued) != len(cops):
+        stats.fail('client-issue', 'issue:request-count', case, observed=len(issued), expected=len(cops))
+        return
+    pos = 0
+    for fi, frame in enumerate(cap.frames):
+        e = rc.dec_encap(frame)
+        sd = rc.dec_send_data(e['payload'])
+        us = rc.dec_unconnected_send(sd['items'][1][1])
+        inner = rc.dec_mr_request(us['message'])
+        n = len(rc.dec_multiple_body(inner['data'])) if inner['service'] == 0x0A else 1
+        for _ in range(n):
+            if pos >= len(issued):
+                stats.fail('client-issue', 'issue:surplus-request-on-the-wire', case, observed={'frame': fi}, expected=len(cops))
+                return
+            index, ctx = issued[pos][0], issued[pos][1]
+            want_ctx = cap.index_to_sender_context(index)
+            carried = bytes(e['context']).rstrip(b'\0')
+            if bytes(ctx) != bytes(want_ctx) or carried != bytes(ctx).rstrip(b'\0') or index != case['index0'] + fi:
+                stats.fail('client-issue', 'issue:operation-reported-under-another-request-index', case,
+                           observed={'operation': pos, 'reported_index': index, 'reported_context': bytes(ctx).hex(), 'frame_number': case['index0'] + fi,
+                                     'frame_context': carried.hex()},
+                           expected='index = number of the frame that carries the operation; context = index_to_sender_context(index) = the frame\'s context')
+                return
+            pos += 1
+    if pos != len(issued):
+        stats.fail('client-issue', 'issue:operations-not-all-on-the-wire', case, observed=pos, expected=len(issued))
+
+
+issue_cases = st.builds(lambda ops, m, i0: {'ops': [list(o) for o in ops], 'multiple': m, 'index0': i0},
+                        st.lists(st.tuples(st.integers(0, 19), st.booleans()), min_size=1, max_size=14),
+                        st.sampled_from([0, 100, 150, 150, 250, 4000]), st.sampled_from([0, 0, 7, 99]))
+
+
 # -- clause: routed requests (simulator A forwards Unconnected Sends for route-path hop 1/1 to a second simulator B)
 
 _RIG = {}
@@ -688,10 +739,10 @@ routed_cases = st.builds(lambda b, s_, a, h: {'before': b, 'stalled': s_, 'after
                          st.sampled_from([0.8, 1.2]))
 
 
-CLAUSES = {'sequence': pred, 'client-context': pred_client, 'routed': pred_routed}
+CLAUSES = {'sequence': pred, 'client-context': pred_client, 'routed': pred_routed, 'client-issue': pred_client_issue}
 STRATEGIES = {'sequence': lambda key: cases(*key) if isinstance(key, (tuple, list)) else cases(key),
               'client-context': lambda key: st.fixed_dictionaries({'contexts': client_contexts}),
-              'routed': lambda key: routed_cases}
+              'routed': lambda key: routed_cases, 'client-issue': lambda key: issue_cases}
 SIZE_LIMIT = 150
 
 
@@ -721,6 +772,7 @@ def shard(job):
     common.hyp_run(s, cases(k, routed, sized), pred, n, common.shard_seed(seed, i), 'sequence', PID, skey=(k, routed, sized))
     common.hyp_run(s, st.fixed_dictionaries({'contexts': client_contexts}), pred_client, max(5, n // 4), common.shard_seed(seed, 500 + i),
                    'client-context', PID, skey=None)
+    common.hyp_run(s, issue_cases, pred_client_issue, max(10, n // 2), common.shard_seed(seed, 520 + i), 'client-issue', PID, skey=None)
     return s
 
 
